@@ -44,3 +44,16 @@ pub mod nullseq {
         END"
     );
 }
+
+pub mod kf {
+    use asn1rs::prelude::*;
+    asn_to_rust!(
+        r"KfTypes DEFINITIONS AUTOMATIC TAGS ::=
+        BEGIN
+          BigList ::= SEQUENCE OF BOOLEAN
+          BigStr ::= IA5String
+          DefAdd ::= SEQUENCE { a BOOLEAN, ..., d INTEGER (0..255) DEFAULT 5 }
+          BigAdd ::= SEQUENCE { a BOOLEAN, ..., o OCTET STRING OPTIONAL }
+        END"
+    );
+}
